@@ -380,7 +380,11 @@ func (fr *Frame) exec(ins ssa.Instruction) {
 			fr.vals[x] = Val{T: fr.strByte(a, idx)}
 			return
 		}
-		unsupported("map lookup in %s", fr.fn)
+		if _, ok := x.X.Type().Underlying().(*types.Map); ok {
+			fr.mapLookup(x)
+			return
+		}
+		unsupported("lookup in %s", fr.fn)
 	case *ssa.MakeSlice:
 		fr.makeSlice(x)
 	case *ssa.MakeClosure:
@@ -390,10 +394,9 @@ func (fr *Frame) exec(ins ssa.Instruction) {
 		}
 		fr.vals[x] = Val{Clo: clo}
 	case *ssa.MakeMap:
-		fr.vals[x] = Val{T: FreshVar("map", SBV(64))}
-		c.note("map value abstracted in " + fr.fn.String())
+		fr.makeMap(x)
 	case *ssa.MapUpdate:
-		c.note("map update ignored in " + fr.fn.String())
+		fr.mapUpdate(x)
 	case *ssa.Slice:
 		fr.sliceOp(x)
 	case *ssa.Store:
@@ -878,11 +881,15 @@ func (fr *Frame) goEq(t types.Type, a, b *Term) *Term {
 
 func (c *Ctx) floatBin(op token.Token, a, b *Term) *Term {
 	if floatMode == 0 {
+		nm := map[token.Token]string{token.LSS: "lt", token.LEQ: "le", token.GTR: "gt", token.GEQ: "ge", token.ADD: "add", token.SUB: "sub", token.MUL: "mul", token.QUO: "div"}[op]
+		if nm == "" {
+			unsupported("float op %s", op)
+		}
 		switch op {
 		case token.LSS, token.LEQ, token.GTR, token.GEQ:
-			return UFApp("ofp."+op.String(), SBool, a, b)
+			return UFApp("ofp."+nm, SBool, a, b)
 		}
-		return UFApp("ofp."+op.String(), a.S, a, b)
+		return UFApp("ofp."+nm, a.S, a, b)
 	}
 	switch op {
 	case token.LSS:
